@@ -820,6 +820,15 @@ class SymEx:
         if not seqish:
             return None
         items = self.as_seq(st, args[0])
+        a0 = args[0]
+        for _ in range(3):
+            if isinstance(a0, tuple) and a0[0] == 'ref':
+                a0 = self.load(st, a0)
+        if isinstance(a0, tuple) and a0[0] == 'seqmin' and last in ('iter', 'into_iter', 'collect', 'chain', 'by_ref', 'to_vec', 'from_iter'):
+            return [(st, a0)]       # known prefix, unknown tail: still at least the prefix
+        if items is not None and last == 'chain' and len(args) == 2 and self.as_seq(st, args[1]) is None and \
+                'Option' not in (args[1][1] if args[1][0] == 'struct' else '') and args[1][0] in ('app', 'unk', 'sym'):
+            return [(st, ('seqmin', tuple(items)))]
         if last in ('push', 'append', 'extend') and args[0][0] == 'ref':
             cur = self.load(st, args[0])
             base = self.as_seq(st, cur)
@@ -1154,3 +1163,21 @@ def split_boolean_outcomes(outs):
         else:
             res.append(o)
     return res
+
+
+def resolve_option_returns(sx, outs):
+    """A path that returns a symbolic Option whose variant the path has already decided (`if accepted { new } else { None }`
+    after `match new { Some(..) .. }`) returns Some(payload) / None: make that explicit."""
+    for o in outs:
+        r = o.ret
+        for _ in range(3):
+            if isinstance(r, tuple) and r[0] == 'ref':
+                r = sx.load(o.st, r)
+        if isinstance(r, tuple) and r[0] == 'sym':
+            key = repr(APP('discr', r))
+            k = o.st.known.get(key)
+            if k == 1:
+                o.ret = STRUCT('std::option::Option', ('Some', 1), [('0', SYM(r[1] + '#Some.0'))])
+            elif k == 0:
+                o.ret = STRUCT('std::option::Option', ('None', 0), [])
+    return outs
